@@ -592,6 +592,21 @@ func watchdog() {
 			last, lastT, lastCPU = cur, time.Now(), cpuTime()
 			continue
 		}
+		// A goroutine of the bubble waits for a sync mutex while no goroutine of
+		// the bubble can run: nothing will ever release it (timers cannot fire
+		// either, the bubble is not idle). If the waiter is inside LiteFS that is
+		// a deadlock of the system under test; it is certain after a few seconds.
+		if w := time.Since(lastT); w > 8*time.Second && w <= limit {
+			buf := make([]byte, 4<<20)
+			dump := string(buf[:runtime.Stack(buf, true)])
+			if fn := sutMutexDeadlock(dump); fn != "" {
+				if cur := curRun.Load(); cur != nil && cur.Failed() && onFatal != nil {
+					onFatal(cur)
+				}
+				fmt.Fprintf(os.Stderr, "SUT-HANG: deadlock: a goroutine waits for a mutex in %s and nothing else can run\n%s\n", fn, dump)
+				os.Exit(3)
+			}
+		}
 		// The limit is counted in CPU time of this process, so that a machine
 		// that is busy with other work (or waiting for a disk) does not look
 		// like a hang; a process that is blocked without using any CPU is given
@@ -617,6 +632,42 @@ func watchdog() {
 			os.Exit(2)
 		}
 	}
+}
+
+// sutMutexDeadlock: no goroutine of any bubble is running or runnable, and one
+// of them waits in sync.Mutex.Lock / sync.RWMutex.(R)Lock with LiteFS (not the
+// harness) as the innermost caller. Returns that caller.
+func sutMutexDeadlock(dump string) string {
+	waiter := ""
+	for _, blk := range strings.Split(dump, "\n\n") {
+		lines := strings.Split(blk, "\n")
+		if len(lines) < 2 || !strings.Contains(lines[0], "synctest bubble") {
+			continue
+		}
+		st := lines[0]
+		if strings.Contains(st, "[running") || strings.Contains(st, "[runnable") || strings.Contains(st, "[syscall") {
+			return ""
+		}
+		if !strings.Contains(st, "[sync.Mutex.Lock") && !strings.Contains(st, "[sync.RWMutex.") {
+			continue
+		}
+		for _, l := range lines[1:] {
+			if strings.HasPrefix(l, "\t") || l == "" {
+				continue
+			}
+			if strings.HasPrefix(l, "runtime.") || strings.HasPrefix(l, "internal/") || strings.HasPrefix(l, "sync.") {
+				continue
+			}
+			if strings.HasPrefix(l, "github.com/superfly/") && !strings.HasPrefix(l, "github.com/superfly/litefs/verifsim.") && waiter == "" {
+				waiter = l
+				if i := strings.LastIndex(l, "("); i > 0 {
+					waiter = l[:i]
+				}
+			}
+			break
+		}
+	}
+	return waiter
 }
 
 // cpuTime is the user+system CPU time this process has consumed.
